@@ -1,7 +1,8 @@
-// verifharness: runs the implementation (/repo, built with -tags verif) on
+// Package hlib: shared pieces of the verification harness. Each property has its own
+// main package (harness/cXX) that calls hlib.Main.  The harness runs the implementation (/repo, built with -tags verif) on
 // generated cases and writes, per property, a Coq file of cases (model
 // expression + observed value) and a stats file.  One sub-command per property.
-package main
+package hlib
 
 import (
 	"encoding/json"
@@ -9,8 +10,7 @@ import (
 	"fmt"
 	"os"
 	"path/filepath"
-	"sort"
-	"strings"
+		"strings"
 )
 
 // ---- one PRNG for everything: splitmix64 seeded by VERIF_SEED -------------
@@ -97,21 +97,21 @@ type CaseFile struct {
 	Shard   int // cases per shard file (default 300)
 }
 
-func coqZ(x interface{}) string {
+func CoqZ(x interface{}) string {
 	s := fmt.Sprint(x)
 	if strings.HasPrefix(s, "-") {
 		return "(" + s + ")"
 	}
 	return s
 }
-func coqN(x interface{}) string { return fmt.Sprint(x) + "%N" }
-func coqBool(b bool) string {
+func CoqN(x interface{}) string { return fmt.Sprint(x) + "%N" }
+func CoqBool(b bool) string {
 	if b {
 		return "true"
 	}
 	return "false"
 }
-func coqBytes(b []byte) string {
+func CoqBytes(b []byte) string {
 	var sb strings.Builder
 	sb.WriteString("[")
 	for i, x := range b {
@@ -123,8 +123,8 @@ func coqBytes(b []byte) string {
 	sb.WriteString("]%N")
 	return sb.String()
 }
-func coqList(items []string) string { return "[" + strings.Join(items, "; ") + "]" }
-func coqOpt(some bool, v string) string {
+func CoqList(items []string) string { return "[" + strings.Join(items, "; ") + "]" }
+func CoqOpt(some bool, v string) string {
 	if !some {
 		return "None"
 	}
@@ -203,31 +203,25 @@ func (c *Ctx) N(quick, thorough int) int {
 	return quick
 }
 
-var props = map[string]func(*Ctx) error{}
-
-func main() {
-	if len(os.Args) < 2 {
-		var ks []string
-		for k := range props {
-			ks = append(ks, k)
+// Main parses the common flags and runs one property's harness.
+//   <bin> --seed N --tier quick|thorough --out DIR [--replay FILE]
+//   <bin> child <name> args...      (chain-level cases run in child processes)
+func Main(prop string, f func(*Ctx) error, children map[string]func([]string) int) {
+	if len(os.Args) >= 2 && os.Args[1] == "child" {
+		if len(os.Args) < 3 || children == nil || children[os.Args[2]] == nil {
+			fmt.Fprintln(os.Stderr, "unknown child")
+			os.Exit(2)
 		}
-		sort.Strings(ks)
-		fmt.Fprintln(os.Stderr, "usage: harness <prop> --seed N --tier quick|thorough --out DIR; props:", ks)
-		os.Exit(2)
-	}
-	prop := os.Args[1]
-	if prop == "child" { // chain-level cases run in child processes
-		os.Exit(childMain(os.Args[2:]))
+		os.Exit(children[os.Args[2]](os.Args[3:]))
 	}
 	fs := flag.NewFlagSet(prop, flag.ExitOnError)
 	seed := fs.Uint64("seed", 1, "")
 	tier := fs.String("tier", "quick", "")
 	out := fs.String("out", "", "")
 	replay := fs.String("replay", "", "")
-	fs.Parse(os.Args[2:])
-	f, ok := props[prop]
-	if !ok {
-		fmt.Fprintln(os.Stderr, "unknown property", prop)
+	fs.Parse(os.Args[1:])
+	if *out == "" {
+		fmt.Fprintln(os.Stderr, "usage: --seed N --tier quick|thorough --out DIR [--replay FILE]")
 		os.Exit(2)
 	}
 	os.MkdirAll(*out, 0755)
@@ -244,3 +238,6 @@ func main() {
 		os.Exit(3)
 	}
 }
+
+// NewRng gives an independent stream derived from a seed (e.g. per case).
+func NewRng(seed uint64) *Rng { return &Rng{s: seed*0x9e3779b97f4a7c15 + 0x1234567} }
